@@ -109,3 +109,16 @@ def ownership(rep, F):
                               "%s writes (or mutably borrows) %s.%s but is not a method of %s (reached from %s): the state can change outside every induction this check relies on" % (x[0], owner, field, owner, ", ".join(str(b_) for b_ in bad)[:160]))
             else:
                 rep.rules["OWN"].ok("%s.%s <- %s" % (owner, field, x[0]))
+    # the documented entry points are Next<f64> and Next<&T>: any further `Next<X>` impl is a way to step the indicator that no rule
+    # about "next" looks at; and a method that hands out `&mut` into the state lets the caller write it
+    for f in F.fns:
+        if f.derived or f.self_struct not in inds:
+            continue
+        if f.trait_short == "Next" and (f.impl_trait or "").split("::")[0] not in ("std", "core"):
+            a0 = (f.impl_trait_args or [{}])[0]
+            ok_in = a0.get("s") == "f64" or (a0.get("k") == "ref" and not a0.get("mut") and (a0.get("to") or {}).get("k") == "param")
+            if not ok_in:
+                rep.violation("%s:undocumented-entry-point:%s" % (rep.prop, f.label), "OWN", "%s is a third way to step %s (documented: Next<f64> and Next<&T>): the rules about next() do not cover it" % (f.label, f.self_struct))
+        rt = f.locals[0]["ty"] if f.locals else {}
+        if "&mut" in str(rt.get("s", "")) and not f.is_ctor:
+            rep.violation("%s:state-escapes:%s" % (rep.prop, f.label), "OWN", "%s returns %s: a mutable reference into the indicator lets its caller write the state directly" % (f.label, rt.get("s")))
